@@ -18,6 +18,25 @@ type inProcessTransport struct {
 }
 
 func (t *inProcessTransport) Close() error {
+	t.markClosed()
+
+	// This side is leaving and will not receive anymore: discard what is still queued for it,
+	// so it reports itself as not connected right away
+	for pending := true; pending; {
+		select {
+		case <-t.envChan:
+		default:
+			pending = false
+		}
+	}
+
+	// We are not closing the envChan here to avoid panics on Send method.
+	// The remote side still receives what was sent before the closing.
+	t.remote.markClosed()
+	return nil
+}
+
+func (t *inProcessTransport) markClosed() {
 	t.mu.Lock()
 	defer t.mu.Unlock()
 
@@ -25,13 +44,6 @@ func (t *inProcessTransport) Close() error {
 		t.closed = true
 		t.done <- true
 	}
-
-	if !t.remote.closed {
-		// We are not closing the envChan here to avoid panics on Send method
-		return t.remote.Close()
-	}
-
-	return nil
 }
 
 func (t *inProcessTransport) Send(_ context.Context, e envelope) error {
